@@ -74,7 +74,8 @@ def pre_info(v):
             "pointer": v["metadata_file"], "by_id": {s["id"]: s for s in snaps}, "current_id": v["current_id"]}
     info["del_path"] = sorted(info["files"])[0] if info["files"] else "data/none.parquet"
     tss = sorted({s["ts"] for s in snaps})
-    info["cutoff"] = tss[len(tss) // 2] if tss else 0
+    # expire everything older than the newest snapshot: with >= 3 snapshots that removes SEVERAL at once - one operation, one commit point
+    info["cutoff"] = tss[-1] if tss else 0
     info["del_snapshot"] = snaps[0]["id"] if snaps else 1
     return info
 
